@@ -144,6 +144,22 @@ CLAIMED = {
         "exact rationals only (transcendental functions, float formatting and full-Unicode percent-encoding are not decided: stated limitation); documentation encoded from memory (no network); three #titleparts deviations are listed findings (pinned by existing tests).",
         "DESIGN.md §5 C18, notes/C18.md",
     ),
+    "C01": (
+        ["Parser", "WikiTree", "Gen_Parser", "Trace_WikiTree"],
+        "TLA+ transcription of the token-driven push-down parser (one operator per handler, token_iter incl. the apostrophe state machine) and of the tree well-formedness rules; TLC checks dispatch totality, WellFormed and clean final state on every chunk sequence of six universes; "
+        "every sequence parsed by the real parse() in several spellings and three modes; random soups / grammar documents / mutated real pages / nesting ladders dumped structurally and validated by TLC against the same WellFormed operator",
+        "Bounded-exhaustive chunk sequences (70 k quick / 550 k thorough) on model and code, plus TLC validation of the distinct tree shapes of ~20 k (quick) / 500 k (thorough) random soups, grammar documents and page mutations.",
+        "Unicode outside the token alphabet is sampled; per-parse CPU limit 5 s (slower parses are counted, not judged); trees deeper than 50 levels validated as one-level slices.",
+        "DESIGN.md §5 C01, notes/C01.md",
+    ),
+    "C02": (
+        ["Parser", "ParserRef", "ParserRefDoc", "Gen_ParserRef", "Trace_ParserRef"],
+        "the same parser transcription restricted to line-structured documents and a declarative nesting model (section parent, containment, item parent, same list); TLC checks Relations(MachineTree(doc)) = RefRelations(doc) on every document; "
+        "every document concretised with unique marker words and filler blocks and parsed by the real parser, relations extracted and compared; long random documents validated by a TLC trace spec",
+        "Bounded-exhaustive heading sequences <=4, marker sequences <=3 lines, mixed documents <=4 lines x filler catalogue (57 k documents quick), plus 4 000 (60 000 thorough) long documents validated by TLC.",
+        "filler blocks are balanced markup from a catalogue; full-tree disagreement with the machine twin is DRIFT.",
+        "DESIGN.md §5 C02, notes/C02.md",
+    ),
 }
 NOT_YET = "check not built yet in this round (see DESIGN.md §10 build order); nothing is claimed for it"
 
